@@ -256,6 +256,22 @@ def evalOp (op input : String) : Option String :=
   | "cliseq" => match input.splitOn "|" with
     | [_, seq] => (parseList parseRespEnv ";" seq).map cliSeq
     | _ => none
+  | "utsrun" => match input.splitOn "|" with
+    -- unaryServerTransportStream: a pool of metadata sets "md#md#…" and operations H<i> S<i> T<i> on pool entries
+    | [pool, ops] => do
+      let pool ← (pool.splitOn "#").mapM parseMD
+      let step := fun (st : (List Metadata.MD × Bool) × List Metadata.MD × List String) (o : String) =>
+        let ((hs, sent), ts, rets) := st
+        let i := (String.ofList (o.toList.drop 1)).toNat?.getD 0
+        let md := pool.getD i []
+        match o.toList.head? with
+        | some 'H' => if sent then ((hs, sent), ts, rets ++ ["err"]) else ((hs ++ [md], sent), ts, rets ++ ["ok"])
+        | some 'S' => if sent then ((hs, sent), ts, rets ++ ["err"]) else ((hs ++ [md], true), ts, rets ++ ["ok"])
+        | some 'T' => ((hs, sent), ts ++ [md], rets ++ ["ok"])
+        | _ => st
+      let ((hs, _), ts, rets) := (ops.splitOn "/").foldl step (([], false), [], [])
+      some ("hdr=" ++ showMD (Metadata.join hs) ++ "~tr=" ++ showMD (Metadata.join ts) ++ "~" ++ ",".intercalate rets)
+    | _ => none
   | "chainlog" => match input.splitOn "|" with
     | [n, req] => do let n ← n.toNat?; let req ← parseHex req; some (chainRun n req)
     | _ => none
